@@ -23,6 +23,9 @@ LAST_FAILURE = None
 
 def on_shape(shape):
     global SB, NSYM
+    if "db" in shape:
+        e2e.on_shape(shape)
+        return
     SB = int(shape["S"])
     NSYM = sum(len(ch) for _, ch in shape["rules"])
 
@@ -130,6 +133,92 @@ def check_tm6(s0: int, s1: int, s2: int, s3: int, s4: int, s5: int) -> bool:
     return core.final(_body((s0, s1, s2, s3, s4, s5)))
 
 
+# ------------------------------------------------------------------ key sequences recorded by real searches (forest database)
+import harness.e2e as e2e  # noqa: E402
+from harness.e2e import Bad  # noqa: E402
+
+
+def prepare_forest(ctx):
+    """Wrap TableMethod.add_rule_key of the searcher's forest database: after every inserted key the table must equal the
+    reference least fixed point of all keys inserted so far (forward keys, reverse keys with negative shifts, empty rules)."""
+    tm = ctx.db.table_method
+    ctx.keys = []
+    ctx.tm_fail = None
+    ctx.prev = {}
+    orig = tm.add_rule_key
+
+    def add_rule_key(rk):
+        orig(rk)
+        if ctx.tm_fail is not None:
+            return
+        ctx.keys.append((rk.parent, tuple(rk.children), tuple(rk.shifts)))
+        S = max([1] + [abs(x) for _, _, sh in ctx.keys for x in sh])
+        labels = sorted({p for p, _, _ in ctx.keys} | {c for _, ch, _ in ctx.keys for c in ch})
+        ref = lfp(ctx.keys, labels, S)
+        if tm.function != ref:
+            ctx.tm_fail = "after key %d %r: function %r, least fixed point %r" % (len(ctx.keys), ctx.keys[-1], tm.function, ref)
+            return
+        for l in labels:
+            a, b = ctx.prev.get(l, 0), ref.get(l, 0)
+            if (a is None and b is not None) or (a is not None and b is not None and b < a):
+                ctx.tm_fail = "value of class %d shrank after key %d" % (l, len(ctx.keys))
+        ctx.prev = ref
+
+    tm.add_rule_key = add_rule_key
+
+
+def assert_forest(ctx):
+    if ctx.tm_fail is not None:
+        raise Bad(ctx.tm_fail)
+    core.observe("forest keys checked", len(ctx.keys))
+    if any(x < 0 for _, _, sh in ctx.keys for x in sh):
+        core.observe("runs with negative shifts (reverse keys)")
+    s = ctx.searcher
+    want = lfp(ctx.keys, [s.start_label], max([1] + [abs(x) for _, _, sh in ctx.keys for x in sh])).get(s.start_label, 0) is None
+    if s.ruledb.has_specification() != want:
+        raise Bad("forest database reports has_specification=%r, the least fixed point says %r" % (s.ruledb.has_specification(), want))
+    if (ctx.spec is not None) != want and not ctx.clock.late_at:
+        raise Bad("search ended %s a specification although the start class is %spumping" % ("with" if ctx.spec else "without", "" if want else "not "))
+
+
+ASSERT = assert_forest
+PREPARE = prepare_forest
+
+# >>> e2e wrappers
+# ---- end-to-end wrappers (same text in every module that uses harness/e2e.py; ASSERT / PREPARE are module globals)
+def check_opt(t: int) -> bool:
+    """
+    pre: e2e.tin(t)
+    post: _
+    """
+    return core.final(e2e.body_opt(t, ASSERT, PREPARE))
+
+
+def check_sched(t: int, j: int) -> bool:
+    """
+    pre: e2e.tin(t) and 0 <= j <= e2e.NJ
+    post: _
+    """
+    return core.final(e2e.body_sched(t, j, ASSERT, PREPARE))
+
+
+def check_sched2(t: int, j0: int, j1: int) -> bool:
+    """
+    pre: e2e.tin(t) and 0 <= j0 < j1 <= e2e.NJ
+    post: _
+    """
+    return core.final(e2e.body_sched2(t, j0, j1, ASSERT, PREPARE))
+
+
+def check_rng(t: int, d0: int, d1: int, d2: int) -> bool:
+    """
+    pre: e2e.tin(t) and 0 <= d0 <= 2 and 0 <= d1 <= 2 and 0 <= d2 <= 2
+    post: _
+    """
+    return core.final(e2e.body_rng(t, (d0, d1, d2), ASSERT, PREPARE))
+# <<< e2e wrappers
+
+
 # ------------------------------------------------------------------ catalogue
 def shapes(L: int, R: int, maxar: int) -> List[Tuple[Tuple[int, Tuple[int, ...]], ...]]:
     """Ordered rule lists over labels 0..L-1 with 1..R rules of arity <= maxar, one
@@ -184,6 +273,10 @@ def groups(tier: str):
     cat22 = shapes(2, 2, 2)
     for i, sh in enumerate(cat22):
         add("L2R2a2-%03d" % i, sh, 2)
+    # large shifts on the small shapes: a later rule whose shift exceeds the gap size in force (needs |shift| up to 4)
+    for i, sh in enumerate(cat22):
+        if 1 <= _nsym(sh) <= 2 and len(sh) == 2:
+            add("L2R2S4-%03d" % i, sh, 4)
     cat23 = shapes(2, 3, 2)
     sel = [sh for sh in cat23 if len(sh) == 3 and _nsym(sh) <= 3 and any(len(ch) == 0 for _, ch in sh)]
     if tier == "quick":
@@ -201,7 +294,11 @@ def groups(tier: str):
         for i, sh in enumerate(cat22):
             if 1 <= _nsym(sh) <= 4:
                 add("L2R2S3-%03d" % i, sh, 3, timeout=600.0)
-    return gs + _window_groups(tier)
+    opts = ["plain", "inferral", "symmetry", "factory", "factory2", "finite-ev", "k", "two", "oneway"]
+    if tier == "thorough":
+        opts += ["inferral-factory-finite", "two-k", "ku-factory", "kk"]
+    rec = e2e.std_groups(tier, dbs=("forest",), opts=opts, sched=False, rng=False, S3=(tier == "thorough"))
+    return gs + _window_groups(tier) + rec
 
 
 # Window groups: whole test universe, all shifts concrete except a window of `width` shifts which are
@@ -280,6 +377,7 @@ def _window_groups(tier):
 
 # ------------------------------------------------------------------ oracle validation
 def selftest(tier):
+    e2e.selftest_universe(tier)
     # 1. typed-in expectations of tests/test_forest.py
     u = [(p, ch, sh) for p, ch, sh in TEST_UNIVERSES["t132"]]
     assert lfp(u, range(7), 2) == {i: None for i in range(6)}
@@ -319,7 +417,9 @@ def meta(tier):
                       TableMethod._set_infinite, TableMethod.is_pumping, TableMethod.pumping_subuniverse,
                       Function, DefaultList],
         "bounds": {
-            "quick": "all ordered rule lists (mod label renaming) with <=2 labels, <=2 rules, arity <=2 (105 shapes); "
+            "quick": "all ordered rule lists (mod label renaming) with <=2 labels, <=2 rules, arity <=2 (105 shapes); the two-rule lists "
+                     "with <=2 shifts again with shifts in [-4,4]; key sequences of real searches under the forest database (64 tables x 9 packs, "
+                     "reverse keys with negative shifts included) compared after every key; "
                      "every second of the 316 3-rule lists over 2 labels with <=3 shifts containing a 0-ary rule; shifts symbolic in [-2,2]; "
                      "the three test_forest universes with a window of 3 shifts symbolic within +-1 of the typed-in value",
             "thorough": "all 3-rule lists over <=2 labels with <=5 shifts; 3-rule lists over exactly 3 labels with <=4 "
